@@ -1,3 +1,5 @@
+//go:build !nodirty
+
 package eng
 
 import (
@@ -49,3 +51,6 @@ func DirtyPools() {
 		return &sb
 	}}
 }
+
+// DirtyPoolsAvailable reports whether this build can pre-fill the pools with junk objects.
+const DirtyPoolsAvailable = true
